@@ -9,7 +9,8 @@
    endElement, ElemElement::startElement (+fixupDefaultNamespace), ElemLiteralResult::startElement
    + evaluateAVTs, NamespacesHandler (constructor, processExcludeResultPrefixes,
    outputResultNamespaces).  Not modelled (second wave, covered by the oracle only):
-   namespace-alias, attribute sets, xsl:copy / xsl:copy-of, illegal element names.
+   namespace-alias, attribute sets, illegal element names; of xsl:copy / xsl:copy-of only the
+   ancestor walk of copyNamespaceAttributes (copy_ns_offered) is modelled.
 
    Strings are abstracted to atoms: the code only compares prefixes/URIs for equality, tests
    emptiness, tests the literal strings "xmlns" / "xml" (as prefixes), and invents "ns<N>".
@@ -543,6 +544,29 @@ Definition exec_lre (s : st) (name : qname) (inscope : list (pfx * uri)) (excl :
     end in
   (* evaluateAVTs *)
   fold_left (fun s a => add_result_attr s (fst a) (snd a) (req_lre_attr (fst a) inscope)) attrs s3.
+
+(* ---------------------------------------------------------------------------------------- *)
+(* XSLTEngineImpl::copyNamespaceAttributes (xsl:copy / xsl:copy-of of a source element): the
+   declaration attributes of the copied element and of its ancestors are offered to
+   addResultNamespace, nearest element first; an attribute NAME already seen on a nearer element is
+   skipped (m_attributeNamesVisited, cleared once, after the walk - GenNsfix anchors that).
+   A level is the list of (prefix, uri) of the xmlns attributes of one source element. *)
+Fixpoint copy_ns_level (attrs : list (pfx * uri)) (visited : list pfx) : list (pfx * uri) * list pfx :=
+  match attrs with
+  | [] => ([], visited)
+  | (p, u) :: r =>
+      if mem_pfx p visited then copy_ns_level r visited
+      else let (o, v) := copy_ns_level r (p :: visited) in ((p, u) :: o, v)
+  end.
+
+Fixpoint copy_ns_walk (levels : list (list (pfx * uri))) (visited : list pfx) : list (pfx * uri) :=
+  match levels with
+  | [] => []
+  | l :: r => let (o, v) := copy_ns_level l visited in o ++ copy_ns_walk r v
+  end.
+
+Definition copy_ns_offered (levels : list (list (pfx * uri))) : list (pfx * uri) :=
+  copy_ns_walk levels [].
 
 Definition exec_op (s : st) (o : op) : st :=
   match o with
